@@ -73,8 +73,12 @@ def _iter_chunked(read, buff_size):
             if not part:
                 raise parsing_err
             yield part
-            rest_len -= part_size
-        if read(2) != rn:
+            rest_len -= len(part)
+        # the chunk data must be followed by CRLF (mind short reads)
+        tail = read(2)
+        if len(tail) == 1:
+            tail += read(1)
+        if tail != rn:
             raise parsing_err
 
 
